@@ -3,8 +3,10 @@
    signextend method with each fast path) and the dispatch layer of src/halmos/sevm.py
    (pop/popi/top/topi, bitwise(), SEVM.arith and its abstraction choice, sym_byte_of, the
    opcode arms of SEVM.run).  The model follows the Python branch by branch, INCLUDING its
-   defects.  The literal guards / constants come from Gen/GenBitvecGuards.v, regenerated from
-   bitvec.py on every run.  No proofs here.
+   defects.  The literal guards / constants (g_.., e_..) and the concrete-path return expressions
+   (r_.. value, rd_.. divisors, rw_.. work) come from Gen/GenBitvecGuards.v, regenerated from
+   bitvec.py on every run; their parameters are the free names of the source expression in
+   alphabetical order.  No proofs here.
 
    z3 side: [term]/[bterm] is the fragment of z3 terms halmos builds; [eval]/[beval] give
    them their SMT-LIB meaning (Base/SmtBV.v) and interpret the f_evm_* uninterpreted
@@ -13,7 +15,7 @@
    term over two constants into a constant (sdiv, smod, ashr, signextend on concrete
    operands) the folded value is the SmtBV function applied to the constants. *)
 From Coq Require Import ZArith List Bool.
-From HV Require Import Base.Word Base.SmtBV Gen.GenBitvecGuards.
+From HV Require Import Base.Word Base.SmtBV Model.PyInt Gen.GenBitvecGuards.
 Import ListNotations.
 Open Scope Z_scope.
 
@@ -117,14 +119,16 @@ Definition denote ev eb (v : val) : Z :=
 
 (* ------------------------------------------------------------------ Python int primitives *)
 Definition py_mask (n v : Z) : Z := Z.land v (Z.ones n).          (* v & ((1 << n) - 1) *)
-(* v >> s on non-negative ints; CPython returns 0 without iterating when s exceeds the length *)
-Definition py_shr (v s : Z) : Z := if Z.log2 v <? s then 0 else Z.shiftr v s.
 Definition bit_length (v : Z) : Z := if v =? 0 then 0 else Z.log2 v + 1.
 (* v.to_bytes(len, "big")[idx] *)
 Definition py_byte_at (len v idx : Z) : Z := (v / 2 ^ (8 * (len - 1 - idx))) mod 256.
 
 (* HalmosBitVec(<int>, size=n) *)
 Definition mk_int (n v : Z) : bv := Cv (py_mask n v).
+(* HalmosBitVec(<int expression with // or %>, size=n): Python raises ZeroDivisionError when a
+   divisor is 0 *)
+Definition py_arith (n : Z) (divisors : list Z) (v : Z) : res bv :=
+  if existsb (Z.eqb 0) divisors then Err EZeroDivision else Ok (mk_int n v).
 (* what z3 makes of a python int / BitVecRef operand of an overloaded operator *)
 Definition z3_of (n : Z) (a : bv) : term := match a with Cv v => TConst n v | Sv t => t end.
 Definition bl_z3 (a : bl) : bterm := match a with BC b => BConst b | BS c => c end.
@@ -189,12 +193,12 @@ Definition bv_is_zero (n : Z) (a : bv) : bl :=
 
 Definition bv_add (n : Z) (a b : bv) : bv :=
   match a, b with
-  | Cv x, Cv y => mk_int n (x + y)
+  | Cv x, Cv y => mk_int n (r_add_1 y x)
   | _, _ => Sv (TBin Add n (z3_of n a) (z3_of n b))
   end.
 Definition bv_sub (n : Z) (a b : bv) : bv :=
   match a, b with
-  | Cv x, Cv y => mk_int n (x - y)
+  | Cv x, Cv y => mk_int n (r_sub_1 y x)
   | _, _ => Sv (TBin Sub n (z3_of n a) (z3_of n b))
   end.
 
@@ -204,7 +208,7 @@ Definition bv_lshl (n : Z) (a s : bv) : bv :=
       if g_lshl_1 k then a
       else if g_lshl_2 k n then mk_int n 0
       else match a with
-           | Cv x => mk_int n (Z.shiftl x k)
+           | Cv x => mk_int n (r_lshl_1 x k)
            | Sv t => Sv (TBin Shl n t (TConst n k))
            end
   | Sv st => Sv (TBin Shl n (z3_of n a) st)
@@ -215,7 +219,7 @@ Definition bv_lshr (n : Z) (a s : bv) : bv :=
   | Cv k =>
       if g_lshr_1 k then a
       else match a with
-           | Cv x => mk_int n (py_shr x k)
+           | Cv x => mk_int n (r_lshr_1 x k)
            | Sv t => if g_lshr_2 k n then mk_int n 0 else Sv (TBin Lshr n t (TConst n k))
            end
   | Sv st => Sv (TBin Lshr n (z3_of n a) st)
@@ -235,7 +239,7 @@ Definition bv_ashr (n : Z) (a s : bv) : bv :=
 
 Definition bv_mul (n : Z) (abs : bool) (a b : bv) : bv :=
   match a, b with
-  | Cv x, Cv y => mk_int n (x * y)
+  | Cv x, Cv y => mk_int n (r_mul_1 x y)
   | Cv x, Sv t =>
       if g_mul_1 x then a
       else if g_mul_2 x then b
@@ -249,18 +253,18 @@ Definition bv_mul (n : Z) (abs : bool) (a b : bv) : bv :=
   | Sv t, Sv u => if abs then Sv (TUF Fmul n t u) else Sv (TBin Mul n t u)
   end.
 
-Definition bv_div (n : Z) (abs : bool) (a b : bv) : bv :=
+Definition bv_div (n : Z) (abs : bool) (a b : bv) : res bv :=
   let slow := if abs then Sv (TUF Fudiv n (z3_of n a) (z3_of n b))
               else Sv (TBin Udiv n (z3_of n a) (z3_of n b)) in
   match b with
   | Cv y =>
-      if g_div_1 y then b
-      else if g_div_2 y then a
+      if g_div_1 y then Ok b
+      else if g_div_2 y then Ok a
       else match a with
-           | Cv x => mk_int n (x / y)
-           | Sv _ => if is_power_of_two y then bv_lshr n a (mk_int n (bit_length y - 1)) else slow
+           | Cv x => py_arith n (rd_div_1 x y) (r_div_1 x y)          (* lhs // rhs *)
+           | Sv _ => Ok (if is_power_of_two y then bv_lshr n a (mk_int n (bit_length y - 1)) else slow)
            end
-  | Sv _ => slow
+  | Sv _ => Ok slow
   end.
 
 (* abstraction=None reaches `other / self` on two HalmosBitVec objects: TypeError *)
@@ -277,22 +281,22 @@ Definition bv_sdiv (n : Z) (abs : bool) (a b : bv) : res bv :=
   | Sv _ => slow
   end.
 
-Definition bv_mod (n : Z) (abs : bool) (a b : bv) : bv :=
+Definition bv_mod (n : Z) (abs : bool) (a b : bv) : res bv :=
   let slow := if abs then Sv (TUF Furem n (z3_of n a) (z3_of n b))
               else Sv (TBin Urem n (z3_of n a) (z3_of n b)) in
   match b with
   | Cv y =>
-      if g_mod_1 y then b
-      else if g_mod_2 y then mk_int n 0
+      if g_mod_1 y then Ok b
+      else if g_mod_2 y then Ok (mk_int n 0)
       else match a with
-           | Cv x => mk_int n (x mod y)
+           | Cv x => py_arith n (rd_mod_1 x y) (r_mod_1 x y)          (* lhs % rhs *)
            | Sv t =>
-               if is_power_of_two y then
-                 let bitsize := bit_length y - 1 in
-                 Sv (TZext (n - bitsize) (TExtract (bitsize - 1) 0 t))
-               else slow
+               Ok (if is_power_of_two y then
+                     let bitsize := bit_length y - 1 in
+                     Sv (TZext (n - bitsize) (TExtract (bitsize - 1) 0 t))
+                   else slow)
            end
-  | Sv _ => slow
+  | Sv _ => Ok slow
   end.
 
 Definition bv_smod (n : Z) (abs : bool) (a b : bv) : bv :=
@@ -323,7 +327,7 @@ Definition bv_exp (n : Z) (eabs mabs : bool) (smt_exp_by_const : Z) (a b : bv) :
       if g_exp_1 y then Ok (mk_int n 1)
       else if g_exp_2 y then Ok a
       else match a with
-           | Cv x => Ok (mk_int n (x ^ y))        (* lhs**rhs, unreduced, then masked *)
+           | Cv x => py_arith n (rd_exp_1 x y n) (r_exp_1 x y n)     (* pow(lhs, rhs, 1 << size) *)
            | Sv _ => if g_exp_3 y smt_exp_by_const
                      then Ok (exp_loop n mabs a a (Z.to_nat (y - 1)))
                      else slow
@@ -331,36 +335,38 @@ Definition bv_exp (n : Z) (eabs mabs : bool) (smt_exp_by_const : Z) (a b : bv) :
   | Sv _ => slow
   end.
 
-(* size in bits (lower bound) of the integer CPython materialises for lhs**rhs on the
-   all-concrete path before it is masked; 0 on every other path *)
-Definition exp_work (a b : bv) : Z :=
+(* work of the all-concrete EXP path that is not answered by a guard: bits of the largest integer
+   CPython materialises while evaluating the (regenerated) return expression; 0 on every other
+   path *)
+Definition exp_work (n : Z) (a b : bv) : Z :=
   match a, b with
-  | Cv x, Cv y => if (y <=? 1) || (x <=? 1) then 0 else y * Z.log2 x
+  | Cv x, Cv y => if g_exp_1 y || g_exp_2 y then 0 else rw_exp_1 x y n
   | _, _ => 0
   end.
+
+Definition bind_bv (r : res bv) (f : bv -> bv) : res bv :=
+  match r with Ok x => Ok (f x) | Err e => Err e end.
 
 Definition bv_addmod (n : Z) (abs : bool) (a b m : bv) : res bv :=
   match a, b, m with
   | Cv x, Cv y, Cv z =>
-      if z =? 0 then Err EZeroDivision              (* python: (x + y) % 0 *)
-      else Ok (mk_int n ((x + y) mod z))
+      if g_addmod_1 z then Ok (mk_int n 0)
+      else py_arith n (rd_addmod_1 z y x) (r_addmod_1 z y x)      (* (x + y) % z *)
   | _, _, _ =>
       let n2 := n + 8 in
       let r1 := bv_add n2 (bv_resize n n2 a) (bv_resize n n2 b) in
-      let r2 := bv_mod n2 abs r1 (bv_resize n n2 m) in
-      Ok (bv_resize n2 n r2)
+      bind_bv (bv_mod n2 abs r1 (bv_resize n n2 m)) (bv_resize n2 n)
   end.
 
 Definition bv_mulmod (n : Z) (mabs dabs : bool) (a b m : bv) : res bv :=
   match a, b, m with
   | Cv x, Cv y, Cv z =>
-      if z =? 0 then Err EZeroDivision              (* python: (x * y) % 0 *)
-      else Ok (mk_int n ((x * y) mod z))
+      if g_mulmod_1 z then Ok (mk_int n 0)
+      else py_arith n (rd_mulmod_1 z y x) (r_mulmod_1 z y x)      (* (x * y) % z *)
   | _, _, _ =>
       let n2 := n * 2 in
       let r1 := bv_mul n2 mabs (bv_resize n n2 a) (bv_resize n n2 b) in
-      let r2 := bv_mod n2 dabs r1 (bv_resize n n2 m) in
-      Ok (bv_resize n2 n r2)
+      bind_bv (bv_mod n2 dabs r1 (bv_resize n n2 m)) (bv_resize n2 n)
   end.
 
 (* asserts size == 256; SignExt(256 - bl, Extract(bl - 1, 0, as_z3())), folded when concrete *)
@@ -375,7 +381,7 @@ Definition bv_signextend (a : bv) (size : Z) : bv :=
 
 Definition bv_not (n : Z) (a : bv) : bv :=
   match a with
-  | Cv x => mk_int n (Z.land (Z.lnot x) (Z.ones n))
+  | Cv x => mk_int n (r_bitwise_not_1 n x)         (* ~v & ((1 << size) - 1) *)
   | Sv t => Sv (TNot n t)
   end.
 Definition bv_bitop (o : binop) (f : Z -> Z -> Z) (n : Z) (a b : bv) : bv :=
@@ -383,9 +389,9 @@ Definition bv_bitop (o : binop) (f : Z -> Z -> Z) (n : Z) (a b : bv) : bv :=
   | Cv x, Cv y => mk_int n (f x y)
   | _, _ => Sv (TBin o n (z3_of n a) (z3_of n b))
   end.
-Definition bv_and := bv_bitop And Z.land.
-Definition bv_or := bv_bitop Or Z.lor.
-Definition bv_xor := bv_bitop Xor Z.lxor.
+Definition bv_and := bv_bitop And (fun x y => r_bitwise_and_1 y x).
+Definition bv_or := bv_bitop Or (fun x y => r_bitwise_or_1 y x).
+Definition bv_xor := bv_bitop Xor (fun x y => r_bitwise_xor_1 y x).
 
 Definition bv_cmp (o : cmpop) (f : Z -> Z -> bool) (n : Z) (a b : bv) : bl :=
   match a, b with
@@ -453,8 +459,8 @@ Definition run2 (sebc : Z) (o : op) (a b : val) : res val :=
   | ADD => lift (bv_add 256 (popi a) (popi b))
   | SUB => lift (bv_sub 256 (popi a) (popi b))
   | MUL => lift (bv_mul 256 true (popi a) (popi b))
-  | DIV => lift (bv_div 256 true (popi a) (popi b))
-  | MOD => lift (bv_mod 256 true (popi a) (popi b))
+  | DIV => liftr (bv_div 256 true (popi a) (popi b))
+  | MOD => liftr (bv_mod 256 true (popi a) (popi b))
   | SDIV => liftr (bv_sdiv 256 true (popi a) (popi b))
   | SMOD => lift (bv_smod 256 true (popi a) (popi b))
   | EXP => liftr (bv_exp 256 true true sebc (popi a) (popi b))
@@ -486,13 +492,15 @@ Definition run2 (sebc : Z) (o : op) (a b : val) : res val :=
   | SAR => lift (bv_ashr 256 (popi b) (popi a))
   end.
 
-(* ISZERO / NOT act on state.top() WITHOUT coercion: a Bool-typed top takes the HalmosBool method *)
+(* ISZERO acts on state.top() WITHOUT coercion (a Bool-typed top takes the HalmosBool method);
+   NOT acts on state.topi(): the 256-bit word *)
 Definition run1 (o : op1) (a : val) : res val :=
-  match o, a with
-  | ISZERO, VBV x => Ok (VBool (bv_is_zero 256 x))
-  | ISZERO, VBool p => Ok (VBool (bl_is_zero p))
-  | NOT, VBV x => Ok (VBV (bv_not 256 x))
-  | NOT, VBool p => Ok (VBool (bl_not p))
+  match o with
+  | ISZERO => match a with
+              | VBV x => Ok (VBool (bv_is_zero 256 x))
+              | VBool p => Ok (VBool (bl_is_zero p))
+              end
+  | NOT => Ok (VBV (bv_not 256 (popi a)))
   end.
 
 Definition run3 (o : op3) (a b c : val) : res val :=
@@ -505,12 +513,12 @@ Definition run3 (o : op3) (a b c : val) : res val :=
 Definition arith_axioms (o : op) (a b : val) : list bterm :=
   match o with
   | DIV => match bv_div 256 true (popi a) (popi b) with
-           | Sv t => [BCmp Ule 256 t (z3_of 256 (popi a))]
-           | Cv _ => []
+           | Ok (Sv t) => [BCmp Ule 256 t (z3_of 256 (popi a))]
+           | _ => []
            end
   | MOD => match bv_mod 256 true (popi a) (popi b) with
-           | Sv t => [BCmp Ule 256 t (z3_of 256 (popi b))]
-           | Cv _ => []
+           | Ok (Sv t) => [BCmp Ule 256 t (z3_of 256 (popi b))]
+           | _ => []
            end
   | _ => []
   end.
